@@ -90,6 +90,27 @@ MUTANTS = [
 ]
 
 
+# Negative controls: changes that keep every claimed property true (a different but correct algorithm,
+# different error variants where the property does not fix them). No check may alarm on these.
+CONTROLS = [
+    ("control_berlekamp_massey_instead_of_levinson_durbin", [], [(SB,
+        "            find_inv_error_locations_levinson_durbin,\n            find_error_values_bp,",
+        "            find_inv_error_locations_bm,\n            find_error_values_bp,")]),
+    ("control_root_count_failure_reported_as_too_many_errors", [], [(SB,
+        "        verif_probe!(crate::verif_probes::ROOT_COUNT_REJECTED);\n        return Err(ErrorDecodingError::Malfunction);",
+        "        verif_probe!(crate::verif_probes::ROOT_COUNT_REJECTED);\n        return Err(ErrorDecodingError::TooManyErrors);")]),
+    ("control_damaged_clock_row_reported_as_padding_error", [], [(PL,
+        "            if !alignment_ok {\n                return Err(BitmapConversionError::Alignment);\n            }\n\n            let rows",
+        "            if !alignment_ok {\n                return Err(BitmapConversionError::Padding);\n            }\n\n            let rows")]),
+    ("control_unexpected_end_reported_as_unexpected_character", [], [(DD,
+        "        } else {\n            Err(DataDecodingError::UnexpectedEnd)\n        }\n    }\n\n    fn is_empty",
+        "        } else {\n            Err(DataDecodingError::UnexpectedCharacter(\"end of data\", 0))\n        }\n    }\n\n    fn is_empty")]),
+    ("control_decoder_rejects_all_uncorrectable_words_early", [], [(SB,
+        "    let t = err_len / 2;\n    let v = lambda_coeff.len() - 1;",
+        "    let t = err_len / 2;\n    let v = lambda_coeff.len() - 1;\n    if v > t {\n        return Err(ErrorDecodingError::TooManyErrors);\n    }")]),
+]
+
+
 def sh(cmd, **kw):
     return subprocess.run(cmd, shell=True, capture_output=True, text=True, **kw)
 
@@ -170,7 +191,11 @@ def main():
                 print(d, {p: res[p]["exit"] for p in PROPS}, flush=True)
             outname = "results_seeded"
         else:
-            for (name, expected, edits) in MUTANTS:
+            todo = MUTANTS
+            if args and args[0] == "--controls":
+                todo = CONTROLS
+                args = args[1:]
+            for (name, expected, edits) in todo:
                 if args and not any(a in name for a in args):
                     continue
                 err = apply_mutant(edits)
@@ -187,11 +212,11 @@ def main():
                     continue
                 res = run_checks(PROPS)
                 restore()
-                results.append({"mutant": name, "kind": "own", "expected": expected, "checks": res,
+                results.append({"mutant": name, "kind": "own" if expected else "negative control", "expected": expected, "checks": res,
                                 "noticed_by": [p for p in PROPS if res[p]["exit"] == 1],
-                                "caught": any(res[p]["exit"] == 1 for p in expected)})
+                                "caught": any(res[p]["exit"] == 1 for p in expected) if expected else all(res[p]["exit"] == 0 for p in PROPS)})
                 print(name, {p: res[p]["exit"] for p in PROPS}, flush=True)
-            outname = "results" if not args else "results_partial"
+            outname = "results_controls" if todo is CONTROLS else ("results" if not args else "results_partial")
     finally:
         restore()
         if wt:
